@@ -30,6 +30,18 @@ type bodyGen struct {
 	// identifiers shadowing packages the resolver template reserves (see shadowArgWords in schema.go)
 	shadow bool     // add such statements
 	params []string // parameters of this method of type ShadowIn / *ShadowIn (named after schema arguments)
+	// round 6: multi-byte characters in comments, strings, raw strings and rune literals (byte offset != rune offset)
+	unicode bool
+}
+
+// statements with non-ASCII text; every one of them also carries a brace / quote the slicing must not trip over
+var unicodeStmts = [][]string{
+	{"\t_ = \"h\u00e9llo \u2192 \u4e16\u754c }\""},
+	{"\t// \u6ce8\u91c8 \u00fcn\u00ef { \u00e7a"},
+	{"\t_ = '\u00e9'"},
+	{"\t_ = `\u65e5\u672c {", "\u8a9e } \u00df`"},
+	{"\t/* \u00a7 bl\u00f6ck \u2014 { */"},
+	{"\t_ = map[string]int{\"\u00f1\": 1, \"}\u20ac\": 2}"},
 }
 
 // names for shadowing locals (block-scoped, so every one of them may be combined with every other statement)
@@ -180,6 +192,15 @@ func (g *bodyGen) body(tag string) string {
 			}
 		}
 	}
+	if g.unicode {
+		for n := 1 + g.r.Below(2); n > 0; n-- {
+			if st := unicodeStmts[g.r.Below(len(unicodeStmts))]; g.r.Below(2) == 0 {
+				lines = append(append([]string{}, st...), lines...)
+			} else {
+				lines = append(lines, st...)
+			}
+		}
+	}
 	switch g.r.Below(8) {
 	case 0:
 		lines = append([]string{"\t// leading comment"}, lines...)
@@ -253,6 +274,22 @@ var extraImports = []struct{ spec, use string }{
 	{`fp "path/filepath"`, `_ = fp.Base("a/b")`},
 }
 
+// round 6: user imports whose explicit alias exists BECAUSE the package's real name is already taken - by an import
+// the resolver template reserves (ast, errors, context, time, ...) or by another import of the user (rand, template).
+// Valid Go that compiles; Reserve must compare the ALIAS (free) and not the package name (taken). Un-aliased partners
+// are listed before the aliased import of the same package name (gofmt sorts the block by path anyway).
+var clashImports = []struct{ spec, use string }{
+	{`goast "go/ast"`, `_ = goast.NewIdent("a")`},
+	{`pkgerrors "verifharness/harness/c19/lib/errors"`, `_ = pkgerrors.Wrap("x")`},
+	{`"crypto/rand"`, `_ = rand.Reader`},
+	{`mrand "math/rand"`, `_ = mrand.Intn(3)`},
+	{`"html/template"`, `_ = template.HTMLEscapeString("a")`},
+	{`ttemplate "text/template"`, `_ = ttemplate.HTMLEscapeString("b")`},
+	{`gotime "verifharness/harness/c19/lib/time"`, `_ = gotime.Tick()`},
+	{`xctx "verifharness/harness/c19/lib/context"`, `_ = xctx.Key("k")`},
+	{`gosync "verifharness/harness/c19/lib/sync"`, `_ = gosync.Once()`},
+}
+
 // EditOpts selects the adversarial features a directed case forces into an edit.
 type EditOpts struct {
 	Prob          int               // percentage of methods to (re)write
@@ -266,6 +303,10 @@ type EditOpts struct {
 	AccessorBody  map[string]string // accessor name -> body
 	StructFor     map[string]string // struct type name -> verbatim declaration
 	NoRandom      bool
+	ClashImports  int    // round 6: percentage chance (per edited file) of adding 1-3 imports from clashImports
+	BytesPct      int    // round 6: percentage chance (per edited file) of writing the file in a random byte shape
+	ByteShape     string // round 6: forced byte shape (see byteShapes)
+	Unicode       bool   // round 6: non-ASCII text in the rewritten bodies
 	Shadow        int  // percentage of rewritten bodies that get statements with shadowing identifiers
 	Raw           bool // write the edited file as typed, without gofmt
 	ValueReceiver map[string]bool
@@ -339,6 +380,11 @@ func (w *W) editFile(r *rng.R, path string, o EditOpts) error {
 	for _, s := range o.ExtraImports {
 		add(s)
 	}
+	if !o.NoRandom && o.ClashImports > 0 && r.Below(100) < o.ClashImports {
+		for n := 1 + r.Below(3); n > 0; n-- {
+			add(clashImports[r.Below(len(clashImports))].spec)
+		}
+	}
 	if o.Shadow > 0 {
 		// the packages a body may genuinely use; the ones no body uses are dropped again below
 		for _, u := range shadowPkgUses {
@@ -348,6 +394,11 @@ func (w *W) editFile(r *rng.R, path string, o EditOpts) error {
 	var uses []string
 	for _, e := range extraImports {
 		if have[e.spec] && e.use != "" {
+			uses = append(uses, e.use)
+		}
+	}
+	for _, e := range clashImports {
+		if have[e.spec] {
 			uses = append(uses, e.use)
 		}
 	}
@@ -453,7 +504,7 @@ func (w *W) editFile(r *rng.R, path string, o EditOpts) error {
 			}
 			if rewrite || forcedN {
 				w.N++
-				g := &bodyGen{r: r, n: &w.N, named: named, uses: uses}
+				g := &bodyGen{r: r, n: &w.N, named: named, uses: uses, unicode: o.Unicode}
 				if o.Shadow > 0 && r.Below(100) < o.Shadow {
 					g.shadow = true
 					for _, p := range d.Type.Params.List {
@@ -568,5 +619,45 @@ func (w *W) editFile(r *rng.R, path string, o EditOpts) error {
 	if o.Raw {
 		out = []byte(text)
 	}
-	return os.WriteFile(path, out, 0o644)
+	shape := o.ByteShape
+	if shape == "" && o.BytesPct > 0 && r.Below(100) < o.BytesPct {
+		shape = byteShapes[r.Below(len(byteShapes))]
+	}
+	return os.WriteFile(path, reshapeBytes(out, shape), 0o644)
+}
+
+// round 6: byte-level shapes of a resolver file that are all the same Go program. go/parser positions are byte
+// offsets into exactly these bytes, and the rewriter slices the file with them.
+var byteShapes = []string{"crlf", "mixed-eol", "bom", "bom-crlf", "no-final-newline", "crlf-no-final-newline", "spaces", "crlf-spaces"}
+
+func reshapeBytes(b []byte, shape string) []byte {
+	s := string(b)
+	has := func(x string) bool { return strings.Contains(shape, x) }
+	if has("spaces") { // leading tabs -> four spaces each (a file that was never gofmt-ed)
+		ls := strings.Split(s, "\n")
+		for i, l := range ls {
+			t := strings.TrimLeft(l, "\t")
+			ls[i] = strings.Repeat("    ", len(l)-len(t)) + t
+		}
+		s = strings.Join(ls, "\n")
+	}
+	if has("no-final-newline") {
+		s = strings.TrimRight(s, "\n")
+	}
+	switch {
+	case has("mixed-eol"): // two lines in three end in CRLF
+		ls := strings.SplitAfter(s, "\n")
+		for i, l := range ls {
+			if i%3 != 1 && strings.HasSuffix(l, "\n") {
+				ls[i] = l[:len(l)-1] + "\r\n"
+			}
+		}
+		s = strings.Join(ls, "")
+	case has("crlf"):
+		s = strings.ReplaceAll(s, "\n", "\r\n")
+	}
+	if has("bom") {
+		s = "\xef\xbb\xbf" + s
+	}
+	return []byte(s)
 }
